@@ -12,7 +12,11 @@ the model runner prints `<compared>` only):
      at X-Tinode-Auth/Authorization/query/form/cookie) sq= sf= (sid) tq= tf= (topic) mh= (media
      handler) lim= body= fault= kind= fid=      upload request  -> UP <status|CRASH> <effect>
   SV m=.. kh= kq= kc= cx= ca= cq= cc= sq= mh= url=<template>  download -> SV <status> none|served:<k>
-  USER/TOPIC/PUB/TAV/UAV/DELMSG/DELTOPIC/DELUSER/GC/DUMP      history of the link / GC part
+  INFLIGHT <fid> <kind> <n>     the fs handler's Upload (os.Create + StartUpload + copy) WITHOUT FinishUpload:
+                                an upload that is running / was abandoned          -> INFLIGHT ok
+  USER/NEWACC/TOPIC/PUB/TAV/UAV/DELMSG/DELTOPIC/DELUSER/GC/DUMP      history of the link / GC part
+     (NEWACC = {acc user="new"} with attachments from a session that is not logged in; TOPIC = {sub topic="new"};
+      TAV / UAV = {set desc} on a group topic / on "me"; DELUSER of an owner removes its topics and their messages)
 
 Laws evaluated on the IMPLEMENTATION's answers: see LAWS below."""
 import json
@@ -33,8 +37,8 @@ LAWS = {
     "size-limit": "a body above the configured size is refused and nothing is stored",
     "download-exact": "a download returns exactly the bytes and the content type of the upload its URL names",
     "active-attached": "HTML, XML, text and application types are sent with Content-Disposition: attachment",
-    "c16-download-incomplete-upload": "a download serves an upload record whose status is not 'completed'",
-    "c16-finish-failure-nil-deref": "largeFileReceive panics (request unanswered) when FinishUpload fails",
+    "download-completed-only": "a download serves only an upload record whose status is 'completed' (never a running, failed or abandoned upload)",
+    "upload-answered": "the upload handler answers every request it starts to work on (no panic / dropped connection), also when the store fails at FinishUpload",
     "gc-exact": "a GC run removes exactly the unlinked records older than the bound, with their bytes, and nothing else",
     "linked-while-referenced": "a file listed with an accepted publish / avatar update stays linked and stored while the message / topic / user exists",
     "c16-attachment-link-all-or-nothing": "a stored message is left without links to its existing attachments because another listed attachment does not exist",
@@ -212,6 +216,11 @@ class Gen:
         d = dict(m=m, kh=kh, kq=kq, kc=kc, cx=cx, ca=ca, cq=cq, cc=cc, sq=sq, mh=mh, asatt=asatt, acrm=acrm, url=url)
         self.add("SV " + " ".join("%s=%s" % kv for kv in d.items()))
 
+    def inflight(self, kind=None, n=None):
+        self.nfid += 1
+        self.add("INFLIGHT %d %s %d" % (self.nfid, kind or self.rng.choice(KINDS), n or self.rng.choice([700, 1500, 3000])))
+        return self.nfid
+
     def good_up(self, kind=None, **kw):
         r = self.rng
         a = {}
@@ -247,6 +256,8 @@ class Gen:
             return "h%s+f%d+h%s" % (s, k, hx(r.choice([".jpg", ".html", ".x.y", "%00"])))
         if shape == "q":
             return "F%d+h%s" % (k, hx("?x=1"))
+        if shape == "idq":
+            return "h%s+f%d+h%s" % (s, k, hx("?x=1"))
         raise ValueError(shape)
 
     def bad_tpl(self, absolute=False):
@@ -372,6 +383,15 @@ def gate_cases(g):
     # the records a failed FinishUpload left behind: can they be downloaded?
     for k in residues:
         g.sv("h%s+f%d" % (hx(SERVE), k), kh="valid", cx="good1", target=k)
+    # uploads that are running (between StartUpload and FinishUpload) or were abandoned there:
+    # record in status 'started' WITH bytes.  No URL shape, credential placement or method serves them.
+    for kind in rng.sample(KINDS, 4 if quick else len(KINDS)):
+        k = g.inflight(kind)
+        for shape in ("id", "dot", "dd", "slash", "ext", "idq"):
+            g.sv(g.tpl(k, shape), kh="valid", cx="good1", asatt=rng.choice(["-", "1"]), target=k)
+        g.sv(g.tpl(k, "id"), kq="valid", sq="live", target=k)
+        g.sv(g.tpl(k, "id"), kc="valid", cc="good2", target=k)
+        g.sv(g.tpl(k, "id"), m="HEAD", kh="valid", ca="good1", target=k)
     g.add("DUMP")
     g.add("GC past 0")
     g.add("DUMP")
@@ -391,20 +411,28 @@ def history_cases(g, count, length):
         g.add("USER %d" % users[2])
         alive_users = users[1:]
         topics = []           # live topic indices
+        owner = {}            # topic -> the user that created it (its owner)
         wedged = set()
         files = []            # uploads made in this history (may have been collected)
         pubs = {}             # publish index -> topic   (global publish counter in g)
         for step in range(length):
             r = rng.random()
             if r < 0.22 or not files:
-                k = g.good_up(body="form:%d:1:1" % rng.choice([1300, 1800]))
+                if files and rng.random() < 0.15:
+                    k = g.inflight()          # never completed: linkable, never downloadable, collected when unlinked
+                else:
+                    k = g.good_up(body="form:%d:1:1" % rng.choice([1300, 1800]))
                 files.append(k)
             elif r < 0.30 and len(topics) < 3:
                 g.ntopic += 1
                 att = "-"
                 if rng.random() < 0.5:
                     att = g.tpl(rng.choice(files))
-                g.add("TOPIC %d 1 %s" % (g.ntopic, att), kind="TOPIC", t=g.ntopic)
+                # topics owned by a user that may be deleted later: its deletion removes the topic,
+                # its messages and their links
+                o = rng.choice([1, 1] + alive_users)
+                owner[g.ntopic] = o
+                g.add("TOPIC %d %d %s" % (g.ntopic, o, att), kind="TOPIC", t=g.ntopic)
                 topics.append(g.ntopic)
             elif r < 0.52 and [t for t in topics if t not in wedged]:
                 t = rng.choice([t for t in topics if t not in wedged])
@@ -418,24 +446,41 @@ def history_cases(g, count, length):
                         tp.append(g.bad_tpl())
                     else:
                         tp.append("h%s+x" % hx(SERVE))       # well-formed id that was never issued
-                g.add("PUB 1 %d %s" % (t, ",".join(tp) or "-"), kind="PUB", t=t)
+                g.add("PUB %d %d %s" % (owner[t], t, ",".join(tp) or "-"), kind="PUB", t=t)
             elif r < 0.62 and topics:
                 t = rng.choice(topics)
                 tp = [g.tpl(rng.choice(files)) if rng.random() < 0.8 else g.bad_tpl() for _ in range(rng.choice([1, 1, 2]))]
-                g.add("TAV 1 %d %s" % (t, ",".join(tp)), kind="TAV", t=t)
+                g.add("TAV %d %d %s" % (owner[t], t, ",".join(tp)), kind="TAV", t=t)
+            elif r < 0.66 and len(alive_users) < 4:
+                # a new account: the avatar is uploaded BEFORE the account exists (topic=newacc, no
+                # credentials; finding F1), then listed with the {acc} request that creates the account
+                q = rng.random()
+                if q < 0.6:
+                    k = g.up(**{rng.choice(["kh", "kq", "kf"]): "valid", rng.choice(["tq", "tf"]): "newacc",
+                                "body": "form:%d:1:1" % rng.choice([1300, 1800])})
+                    files.append(k)
+                    tp = [g.tpl(k)]
+                elif q < 0.85:
+                    tp = [g.tpl(rng.choice(files)) if rng.random() < 0.7 else g.bad_tpl() for _ in range(rng.choice([1, 2]))]
+                else:
+                    tp = []
+                g.nuser += 1
+                alive_users.append(g.nuser)
+                g.add("NEWACC %d %s" % (g.nuser, ",".join(tp) or "-"), kind="NEWACC", u=g.nuser)
             elif r < 0.72 and alive_users:
                 u = rng.choice(alive_users)
                 tp = [g.tpl(rng.choice(files)) if rng.random() < 0.8 else g.bad_tpl() for _ in range(rng.choice([1, 1, 2]))]
                 g.add("UAV %d %s" % (u, ",".join(tp)), kind="UAV", u=u)
             elif r < 0.80 and topics:
                 t = rng.choice(topics)
-                g.add("DELMSG 1 %d %s" % (t, ",".join(str(rng.randrange(1, 400)) for _ in range(3))), kind="DELMSG", t=t)
+                g.add("DELMSG %d %d %s" % (owner[t], t, ",".join(str(rng.randrange(1, 400)) for _ in range(3))), kind="DELMSG", t=t)
             elif r < 0.84 and topics:
                 t = rng.choice(topics)
                 topics.remove(t)
-                g.add("DELTOPIC 1 %d" % t, kind="DELTOPIC", t=t)
+                g.add("DELTOPIC %d %d" % (owner[t], t), kind="DELTOPIC", t=t)
             elif r < 0.87 and len(alive_users) > 0 and rng.random() < 0.5:
                 u = alive_users.pop()
+                topics = [t for t in topics if owner[t] != u]          # deleted with their owner
                 g.add("DELUSER %d" % u, kind="DELUSER", u=u)
             elif r < 0.97:
                 g.add("GC %s %d" % (rng.choice(["future", "future", "future", "zero", "past"]), rng.choice([0, 0, 0, 1, 2, 100])), kind="GC")
@@ -443,9 +488,14 @@ def history_cases(g, count, length):
                 k = rng.choice(files)
                 g.sv(g.tpl(k, rng.choice(["F", "id", "dot", "dd", "slash", "ext", "q"])), kh="valid", cx="good1", target=k)
             g.add("DUMP")
+        for u in alive_users[1:]:
+            # the owner goes first: its topics, their messages and all their links go with it
+            topics = [t for t in topics if owner[t] != u]
+            g.add("DELUSER %d" % u, kind="DELUSER", u=u)
+            g.add("DUMP")
         for t in topics:
-            g.add("DELTOPIC 1 %d" % t, kind="DELTOPIC", t=t)
-        for u in alive_users:
+            g.add("DELTOPIC %d %d" % (owner[t], t), kind="DELTOPIC", t=t)
+        for u in alive_users[:1]:
             g.add("DELUSER %d" % u, kind="DELUSER", u=u)
         g.add("DUMP")
         g.add("GC zero 0")
@@ -532,7 +582,7 @@ def monitors(lines, answers):
             if d["m"] not in impl_methods and not (status == "405" and not worked):
                 fails.append(("methods", i, "method %s answered %s %s" % (d["m"], status, effect)))
             if status == "CRASH" and d.get("mh") != "none":
-                fails.append(("c16-finish-failure-nil-deref", i, "handler panicked: " + unhx(side.get("panic", "-")).decode("latin1")))
+                fails.append(("upload-answered", i, "handler panicked, request unanswered, left %s: %s" % (effect, unhx(side.get("panic", "-")).decode("latin1"))))
             elif status == "500" and effect in ("residue", "residue-nobytes") and d.get("fault") in ("finish", "start", "create"):
                 pass        # a FAILED upload (store failure): the record stays for the GC, as the property says
             elif status != "200" and status != "CRASH" and worked:
@@ -550,7 +600,7 @@ def monitors(lines, answers):
                 if is_active(mime) and unhx(side.get("cd", "-")) != b"attachment":
                     fails.append(("active-attached", i, "type %r served inline" % mime))
                 if side.get("recstatus") != "1":
-                    fails.append(("c16-download-incomplete-upload", i, "served upload record with status " + str(side.get("recstatus"))))
+                    fails.append(("download-completed-only", i, "served the bytes of an upload record whose status is %s (0 = started, 1 = completed)" % side.get("recstatus")))
         elif w[0] == "PUB":
             if a[1] == "saved=1":
                 npub += 1
@@ -603,10 +653,13 @@ def history_expectations(g, lines, answers):
     held = {}              # link text -> line index
     npub = 0
     pub_topic = {}
+    topic_owner = {}
     import re
     for i, (line, ans) in enumerate(zip(lines, answers)):
         w = line.split()
         cmp_, side = split(ans)
+        if w[0] == "TOPIC":
+            topic_owner[w[1]] = w[2]
         if w[0] == "DUMP":
             d = kvs(cmp_)
             files = dict(x.split(":") for x in d["files"].split(",")) if d["files"] != "-" else {}
@@ -621,10 +674,10 @@ def history_expectations(g, lines, answers):
             exist = {k for k, s in files.items()}
             done = {k for k, s in files.items() if s == "1"}
             continue
-        if w[0] not in ("PUB", "TAV", "UAV", "TOPIC", "DELMSG", "DELTOPIC", "DELUSER"):
+        if w[0] not in ("PUB", "TAV", "UAV", "TOPIC", "NEWACC", "DELMSG", "DELTOPIC", "DELUSER"):
             continue
         named = []
-        tpls = w[-1] if w[0] in ("PUB", "TAV", "UAV", "TOPIC") else "-"
+        tpls = w[-1] if w[0] in ("PUB", "TAV", "UAV", "TOPIC", "NEWACC") else "-"
         if tpls != "-":
             named = [g.names.get(t) for t in tpls.split(",")]
         if w[0] == "PUB":
@@ -640,12 +693,12 @@ def history_expectations(g, lines, answers):
             elif any(k in exist for k in ks):
                 fails.append(("c16-attachment-link-all-or-nothing", i,
                               "message %d stored (reply %s) but its existing attachments %s are not linked" % (npub, side.get("code"), [k for k in ks if k in exist])))
-        elif w[0] in ("TAV", "TOPIC", "UAV"):
-            tgt = ("u" + w[1]) if w[0] == "UAV" else ("t" + (w[2] if w[0] == "TAV" else w[1]))
+        elif w[0] in ("TAV", "TOPIC", "UAV", "NEWACC"):
+            tgt = ("u" + w[1]) if w[0] in ("UAV", "NEWACC") else ("t" + (w[2] if w[0] == "TAV" else w[1]))
             first = named[0] if named else None
             # only the first resolvable attachment counts; a replaced avatar loses its link
             firstres = next((k for k in named if k is not None), None)
-            if firstres is not None and firstres in exist and cmp_.split()[1] == "200":
+            if firstres is not None and firstres in exist and cmp_.split()[1] in ("200", "201"):
                 for l in [l for l in held if l.endswith(">" + tgt)]:
                     del held[l]
                 held["%s>%s" % (firstres, tgt)] = i
@@ -661,9 +714,281 @@ def history_expectations(g, lines, answers):
                 if tg == "t" + w[2] or (tg[0] == "m" and pub_topic.get(int(tg[1:])) == w[2]):
                     del held[l]
         elif w[0] == "DELUSER":
-            for l in [l for l in held if l.endswith(">u" + w[1])]:
-                del held[l]
+            # the account, the topics it owns and the messages in them are gone
+            for l in list(held):
+                tg = l.split(">")[1]
+                if tg == "u" + w[1] or (tg[0] == "t" and topic_owner.get(tg[1:]) == w[1]) or \
+                        (tg[0] == "m" and topic_owner.get(pub_topic.get(int(tg[1:]))) == w[1]):
+                    del held[l]
     return fails
+
+
+# ---------------------------------------------------------------- SQL of the real MySQL adapter
+# The histories above run on memverif.  The statements the REAL adapter sends for FileDeleteUnused /
+# FileLinkAttachments / FileFinishUpload are recorded by harness/overlay/server/db/mysql/zz_verif_c16_test.go
+# and executed here on sqlite over enumerated small tables; the GC and link laws are evaluated on the result,
+# and the result is compared with the store contract of the model (gc_candidate / link_single / publish).
+SQL_SCHEMA = """
+CREATE TABLE users(id INTEGER PRIMARY KEY);
+CREATE TABLE topics(name TEXT PRIMARY KEY);
+CREATE TABLE messages(id INTEGER PRIMARY KEY);
+CREATE TABLE fileuploads(id INTEGER NOT NULL PRIMARY KEY, createdat TEXT NOT NULL, updatedat TEXT NOT NULL, userid INTEGER,
+  status INT NOT NULL, mimetype TEXT NOT NULL, size INTEGER NOT NULL, location TEXT NOT NULL);
+CREATE TABLE filemsglinks(id INTEGER PRIMARY KEY AUTOINCREMENT, createdat TEXT NOT NULL,
+  fileid INTEGER NOT NULL REFERENCES fileuploads(id) ON DELETE CASCADE,
+  msgid INTEGER REFERENCES messages(id) ON DELETE CASCADE,
+  topic TEXT REFERENCES topics(name) ON DELETE CASCADE,
+  userid INTEGER REFERENCES users(id) ON DELETE CASCADE);
+"""
+T_OLD, T_BOUND, T_NEW = "2026-01-01T00:00:00.000Z", "2026-01-01T12:00:00.000Z", "2026-01-02T00:00:00.000Z"
+SQL_TOPICS = ["grpAAAAAAAAAAA", "grpBBBBBBBBBBB"]
+SQL_MSGS = [11, 12]
+SQL_UIDS = [7001, 7002]          # plain Uid values; the adapter stores store.DecodeUid(uid)
+
+
+def build_sql_driver(ctx):
+    ov = {}
+    base = os.path.join(vlib.ROOT, "harness", "overlay")
+    for dp, _, fs in os.walk(base):
+        for f in fs:
+            if f.endswith(".go"):
+                src = os.path.join(dp, f)
+                ov[os.path.join(vlib.REPO, os.path.relpath(src, base))] = src
+    ovp = os.path.join(vlib.BUILD, "overlay_c16sql.json")
+    json.dump({"Replace": ov}, open(ovp, "w"), indent=1)
+    out_bin = os.path.join(vlib.BUILD, "mysqldrv_c16.test")
+    rc, out = vlib.sh("timeout 1500 go test -c -o %s -vet=off -tags 'mysql verif' -overlay %s ./db/mysql/" % (out_bin, ovp),
+                      cwd=os.path.join(vlib.REPO, "server"), env=vlib.GOENV)
+    open(os.path.join(ctx.work, "mysqldrv_c16_build.log"), "w").write(out)
+    return rc == 0, out
+
+
+def run_sql_driver(ctx, calls, tag):
+    fin = os.path.join(ctx.work, "sql_%s_in.jsonl" % tag)
+    fout = os.path.join(ctx.work, "sql_%s_out.jsonl" % tag)
+    open(fin, "w").write("".join(json.dumps(c) + "\n" for c in calls))
+    if os.path.exists(fout):
+        os.remove(fout)
+    env = dict(vlib.GOENV, VERIF_IN=fin, VERIF_OUT=fout)
+    p = subprocess.run([os.path.join(vlib.BUILD, "mysqldrv_c16.test"), "-test.run", "^TestVerifC16Sql$", "-test.count=1"],
+                       stdout=subprocess.PIPE, stderr=subprocess.STDOUT, text=True, timeout=1200, env=env,
+                       cwd=os.path.join(vlib.REPO, "server", "db", "mysql"))
+    out = [json.loads(l) for l in open(fout)] if os.path.exists(fout) else []
+    return p.returncode, out, p.stdout
+
+
+def sql_args(args):
+    return [a["time"] if isinstance(a, dict) else a for a in (args or [])]
+
+
+class SqlDb:
+    """the tables of one case: files = [(id, updatedat, status, location)], links = [(fileid, kind, target)]"""
+
+    def __init__(self):
+        import sqlite3
+        self.c = sqlite3.connect(":memory:", isolation_level=None)
+        self.c.executescript(SQL_SCHEMA)
+        self.c.execute("PRAGMA foreign_keys=ON")
+
+    def load(self, files, links, users):
+        c = self.c
+        for tb in ("filemsglinks", "fileuploads", "messages", "topics", "users"):
+            c.execute("DELETE FROM " + tb)
+        c.executemany("INSERT INTO users(id) VALUES (?)", [(u,) for u in users])
+        c.executemany("INSERT INTO topics(name) VALUES (?)", [(x,) for x in SQL_TOPICS])
+        c.executemany("INSERT INTO messages(id) VALUES (?)", [(m,) for m in SQL_MSGS])
+        c.executemany("INSERT INTO fileuploads(id,createdat,updatedat,userid,status,mimetype,size,location) VALUES (?,?,?,?,?,?,?,?)",
+                      [(i, T_OLD, upd, 1, st, "x/y", 1, loc) for i, upd, st, loc in files])
+        col = {"msg": "msgid", "topic": "topic", "user": "userid"}
+        for f, kind, tg in links:
+            c.execute("INSERT INTO filemsglinks(createdat,fileid,%s) VALUES (?,?,?)" % col[kind], (T_OLD, f, tg))
+
+    def files(self):
+        return sorted(r[0] for r in self.c.execute("SELECT id FROM fileuploads"))
+
+    def links(self):
+        res = []
+        for f, m, tp, u in self.c.execute("SELECT fileid,msgid,topic,userid FROM filemsglinks"):
+            res.append((f, "msg", m) if m is not None else (f, "topic", tp) if tp is not None else (f, "user", u))
+        return sorted(res, key=repr)
+
+    def run_tx(self, stmts):
+        """the recorded statements in order; an error rolls the transaction back (what the adapter's
+        deferred tx.Rollback does).  Returns (rows of the last SELECT, error text or None)"""
+        rows, intx = None, False
+        try:
+            for st in stmts:
+                k = st["kind"]
+                if k == "BEGIN":
+                    self.c.execute("BEGIN")
+                    intx = True
+                elif k == "COMMIT":
+                    self.c.execute("COMMIT")
+                    intx = False
+                elif k == "ROLLBACK":
+                    if intx:
+                        self.c.execute("ROLLBACK")
+                    intx = False
+                elif k == "QUERY":
+                    rows = self.c.execute(st["q"], sql_args(st.get("args"))).fetchall()
+                else:
+                    self.c.execute(st["q"], sql_args(st.get("args")))
+        except Exception as e:          # sqlite3.Error
+            if intx:
+                self.c.execute("ROLLBACK")
+            return rows, "%s: %s" % (type(e).__name__, e)
+        return rows, None
+
+
+def sql_tables(ctx, ids):
+    """enumerated file / link tables: every file old or new, with one of several link sets"""
+    import itertools
+    linksets = [(), (("msg", SQL_MSGS[0]),), (("topic", SQL_TOPICS[0]),), (("user", "U0"),),
+                (("msg", SQL_MSGS[0]), ("msg", SQL_MSGS[1])), (("msg", SQL_MSGS[1]), ("user", "U1")), (("topic", SQL_TOPICS[1]), ("user", "U0"))]
+    variants = [(upd, ls) for upd in (T_OLD, T_NEW) for ls in linksets]
+    tables = [([], [])]
+    for n in (1, 2, 3):
+        combos = list(itertools.product(variants, repeat=n))
+        if n == 3 and ctx.tier == "quick":
+            combos = ctx.rng.sample(combos, 250)
+        for combo in combos:
+            files, links = [], []
+            for i, (upd, ls) in enumerate(combo):
+                files.append((ids[i], upd, 0 if (i + len(ls)) % 3 == 0 else 1, "" if (i == 2 and upd == T_OLD) else "loc%d" % i))
+                links += [(ids[i], kind, tg) for kind, tg in ls]
+            tables.append((files, links))
+    return tables
+
+
+def sql_tie(ctx):
+    """returns (law failures, correspondence differences, coverage dict); each failure carries the tables and
+    the statements as its concrete input"""
+    fails, diffs = [], []
+    ok, out = build_sql_driver(ctx)
+    if not ok:
+        return fails, [("sql-driver-build", "recording driver for the MySQL adapter no longer builds: " + out[-800:], {})], {}
+    combos = [(older, lim) for older in ("", T_BOUND) for lim in (0, 1, 2)]
+    calls = [{"op": "ids", "n": 4}] + [{"op": "gc", "older": o, "limit": l, "rows": []} for o, l in combos]
+    # link calls: files 0 and 1 exist, 2 does not
+    link_calls = []
+    for kind, tg in (("msg", SQL_MSGS[0]), ("topic", SQL_TOPICS[0]), ("user", SQL_UIDS[0])):
+        for fl in ([0], [1], [0, 1], [1, 0], [2], [0, 2], [2, 0], [0, 0]):
+            link_calls.append({"op": "link", "kind": kind, "topic": tg if kind == "topic" else "", "uid": tg if kind != "topic" else 0, "files": fl})
+    fin_calls = [{"op": "finish", "files": [0], "ok": True}, {"op": "finish", "files": [0], "ok": False}]
+    rc, ans, log = run_sql_driver(ctx, calls + link_calls + fin_calls, "p1")
+    if rc != 0 or len(ans) != len(calls) + len(link_calls) + len(fin_calls) or any(a.get("panic") for a in ans):
+        return fails, [("sql-driver-run", "recording driver failed: rc=%s %s %s" % (rc, [a.get("panic") for a in ans if a.get("panic")][:2], log[-600:]), {})], {}
+    ids = ans[0]["ids"]
+    # decoded ids of the two users: taken from a user-link call's recorded target
+    udec = {}
+    db = SqlDb()
+    select = {}
+    for (o, l), a in zip(combos, ans[1:1 + len(combos)]):
+        q = [s for s in a["stmts"] if s["kind"] == "QUERY"]
+        if len(q) != 1 or a.get("err"):
+            return fails, [("sql-gc-shape", "FileDeleteUnused(%r,%d) sent %d SELECTs, err=%r" % (o, l, len(q), a.get("err")), {"stmts": a["stmts"]})], {}
+        select[(o, l)] = q[0]
+    users_dec = [ids[3] + 1, ids[3] + 2]      # any two database ids for users U0 / U1 of the GC tables
+    tables = sql_tables(ctx, ids)
+    pass2, nsel = [], 0
+    for files, links in tables:
+        links = [(f, k, users_dec[int(tg[1])] if k == "user" else tg) for f, k, tg in links]
+        linked = {f for f, _, _ in links}
+        for (o, l) in combos:
+            db.load(files, links, users_dec)
+            st = select[(o, l)]
+            try:
+                rows = db.c.execute(st["q"], sql_args(st.get("args"))).fetchall()
+            except Exception as e:
+                return fails, [("sql-gc-unsupported", "the GC query of the adapter cannot be evaluated: %s: %s" % (e, st["q"]), {"stmt": st})], {}
+            nsel += 1
+            got = [r[0] for r in rows]
+            cand = [i for i, upd, _, _ in files if i not in linked and (o == "" or upd < o)]
+            case = {"files": files, "links": links, "older": o, "limit": l, "select": st, "selected": got}
+            if len(set(got)) != len(got) or any(g not in cand for g in got):
+                bad = [g for g in got if g in linked]
+                fails.append(("gc-exact", "the adapter's GC query selects %s" % (
+                    "LINKED uploads %s" % bad if bad else "uploads that are not collectable (%s of candidates %s)" % (got, cand)), case))
+            elif len(got) != (len(cand) if l <= 0 else min(l, len(cand))):
+                fails.append(("gc-exact", "the adapter's GC query selects %d of %d collectable uploads with limit %d" % (len(got), len(cand), l), case))
+            pass2.append((files, links, o, l, rows))
+    # second pass: what the adapter does with the selected rows
+    keys = {}
+    for files, links, o, l, rows in pass2:
+        keys.setdefault((o, l, tuple(rows)), None)
+    calls2 = [{"op": "gc", "older": o, "limit": l, "rows": [[str(r[0]), r[1]] for r in rows]} for (o, l, rows) in keys]
+    rc, ans2, log = run_sql_driver(ctx, calls2, "p2")
+    if rc != 0 or len(ans2) != len(calls2):
+        return fails, [("sql-driver-run", "recording driver failed (second pass): rc=%s %s" % (rc, log[-600:]), {})], {}
+    for k, a in zip(list(keys), ans2):
+        keys[k] = a
+    for files, links, o, l, rows in pass2:
+        a = keys[(o, l, tuple(rows))]
+        db.load(files, links, users_dec)
+        _, err = db.run_tx([s for s in a["stmts"] if s["kind"] != "QUERY"])
+        sel = {r[0] for r in rows}
+        case = {"files": files, "links": links, "older": o, "limit": l, "selected": sorted(sel), "stmts": a["stmts"], "returned": a.get("ret")}
+        want_files = sorted(i for i, _, _, _ in files if i not in sel)
+        if err or a.get("err") or a.get("panic"):
+            diffs.append(("sql-gc-delete", "FileDeleteUnused failed after selecting %s: %s %s" % (sorted(sel), err, a.get("err") or a.get("panic")), case))
+        elif db.files() != want_files:
+            fails.append(("gc-exact", "after selecting %s the adapter leaves records %s, expected %s" % (sorted(sel), db.files(), want_files), case))
+        elif sorted(a.get("ret") or []) != sorted(loc for i, _, _, loc in files if i in sel and loc != ""):
+            fails.append(("gc-exact", "locations handed to the media handler %s are not those of the removed records %s" % (a.get("ret"), sorted(sel)), case))
+        elif db.links() != sorted([x for x in links if x[0] not in sel], key=repr):
+            fails.append(("nothing-else-removed", "a GC run changed link rows of uploads it did not remove", case))
+    # links
+    f0, f1, fmiss = ids[0], ids[1], ids[2]
+    nlink = 0
+    for c, a in zip(link_calls, ans[1 + len(combos):1 + len(combos) + len(link_calls)]):
+        kind = c["kind"]
+        tg = c["topic"] if kind == "topic" else (a.get("target") if kind == "user" else c["uid"])
+        other = {"msg": SQL_MSGS[1], "topic": SQL_TOPICS[1], "user": (a.get("target") or 0) + 1}[kind]
+        users = [tg, other] if kind == "user" else [1, 2]
+        listed = [ids[k] for k in c["files"]]
+        for before in ([], [(f1, kind, tg)], [(f0, kind, other), (f1, "msg", SQL_MSGS[1])], [(f0, kind, tg), (f1, kind, other)]):
+            if kind == "msg" and any(b[1] == "msg" and b[2] == tg for b in before):
+                continue          # a message is linked once, when it is saved
+            files = [(f0, T_OLD, 1, "l0"), (f1, T_NEW, 0, "l1")]
+            db.load(files, before, users)
+            _, err = db.run_tx(a["stmts"])
+            nlink += 1
+            after = db.links()
+            use = listed if kind == "msg" else listed[:1]
+            case = {"files": files, "links_before": before, "call": c, "target": tg, "stmts": a["stmts"], "links_after": after, "error": err or a.get("err")}
+            if a.get("err") or a.get("panic"):
+                diffs.append(("sql-link", "FileLinkAttachments(%s) answered %s" % (c, a.get("err") or a.get("panic")), case))
+                continue
+            if fmiss in use:
+                want = sorted(before, key=repr)          # FOREIGN KEY: nothing is linked, nothing is unlinked
+            else:
+                keep = [b for b in before if kind == "msg" or not (b[1] == kind and b[2] == tg)]
+                want = sorted(keep + [(f, kind, tg) for f in use], key=repr)
+            if after == want:
+                continue
+            lost = [b for b in before if b not in after and not (b[1] == kind and b[2] == tg)]
+            missing = [w for w in want if w not in after and w not in before]
+            if lost:
+                fails.append(("linked-while-referenced", "linking to %s %s removed the link rows %s of another message / topic / user" % (kind, tg, lost), case))
+            elif missing and fmiss not in use:
+                fails.append(("linked-while-referenced", "FileLinkAttachments(%s %s, %s) succeeded without the link rows %s" % (kind, tg, listed, missing), case))
+            else:
+                diffs.append(("sql-link", "link rows after FileLinkAttachments(%s %s, %s): %s, store contract of the model: %s" % (kind, tg, listed, after, want), case))
+    # FinishUpload
+    for c, a in zip(fin_calls, ans[1 + len(combos) + len(link_calls):]):
+        files = [(f0, T_OLD, 0, "l0"), (f1, T_OLD, 0, "l1")]
+        links = [(f0, "msg", SQL_MSGS[0])]
+        db.load(files, links, [1, 2])
+        _, err = db.run_tx(a["stmts"])
+        st = dict(db.c.execute("SELECT id,status FROM fileuploads").fetchall())
+        want = {f0: 1, f1: 0} if c["ok"] else {f1: 0}
+        case = {"call": c, "stmts": a["stmts"], "rows_after": st, "links_after": db.links(), "error": err or a.get("err")}
+        if err or a.get("err") or st != want or db.links() != (sorted(links, key=repr) if c["ok"] else []):
+            diffs.append(("sql-finish", "FileFinishUpload(ok=%s) leaves %s / links %s, store contract of the model: %s" % (c["ok"], st, db.links(), want), case))
+    cov = {"tables": len(tables), "gc_selects_evaluated": nsel, "gc_runs_replayed": len(pass2), "distinct_gc_calls_second_pass": len(calls2),
+           "link_cases": nlink, "finish_cases": len(fin_calls), "engine": "sqlite " + __import__("sqlite3").sqlite_version,
+           "gc_queries": sorted({s["q"] for s in select.values()})}
+    return fails, diffs, cov
 
 
 # ---------------------------------------------------------------- running
@@ -710,15 +1035,17 @@ def run(ctx):
                       {"correspondence": "build of harness/overlay against /repo"})
         ctx.finish()
     quick = ctx.tier == "quick"
+    sql_only = False
     if ctx.replay:
         rp = json.load(open(ctx.replay))
-        lines = rp["replay"].get("lines") or [rp["replay"]["case"]]
+        sql_only = "sql_case" in rp["replay"]
+        lines = ["USER 1"] if sql_only else (rp["replay"].get("lines") or [rp["replay"]["case"]])
         g = None
     else:
         pure = list(dict.fromkeys(url_cases(ctx) + fa_cases(ctx)))
         g = Gen(ctx)
         gate_cases(g)
-        history_cases(g, 12 if quick else 400, 30 if quick else 45)
+        history_cases(g, 12 if quick else 400, 40 if quick else 45)
         # USER 1 must come before the FA lines (they authenticate as user 1)
         lines = ["USER 1"] + pure + g.lines[1:]
     rc, impl, err = run_impl(ctx, lines)
@@ -731,21 +1058,43 @@ def run(ctx):
         ctx.violation("proof", "runner-crashed", "model runner failed: " + err[-1500:], {"theorem_or_obligation": "model runner"})
         ctx.finish()
 
+    import bisect
+    import re as _re
+    stateful_idx = [j for j, l in enumerate(lines) if l.split(None, 1)[0] not in ("CL", "ID", "FA")]
+    maker = {}
+    for j in stateful_idx:
+        l = lines[j]
+        if l.startswith("UP "):
+            maker[kvs(l).get("fid")] = l
+        elif l.startswith("INFLIGHT "):
+            maker[l.split()[1]] = l
+    tpl_re = _re.compile(r"(?:^|\+)[fF](\d+)")
+
     def prefix(i):
         """replay of a stateful line = all stateful lines up to it"""
-        if lines[i].split()[0] in ("CL", "ID"):
+        k0 = lines[i].split(None, 1)[0]
+        if k0 in ("CL", "ID"):
             return {"case": lines[i]}
-        st = [l for l in lines[:i + 1] if l.split()[0] not in ("CL", "ID", "FA")]
-        if lines[i].split()[0] == "FA":
-            st = ["USER 1", lines[i]]
+        if k0 == "FA":
+            return {"case": lines[i], "lines": ["USER 1", lines[i]]}
+        if k0 in ("UP", "SV"):
+            # a request line depends only on the users and on the uploads its URL template names
+            ks = tpl_re.findall(kvs(lines[i]).get("url", ""))
+            made = [maker[k] for k in dict.fromkeys(ks) if k in maker and maker[k] != lines[i]]
+            return {"case": lines[i], "lines": ["USER 1", "USER 2"] + made + [lines[i]]}
+        n = bisect.bisect_right(stateful_idx, i)
         # setup (users, fixtures) + the tail; uploads made in the cut part are then unknown ids
-        return {"case": lines[i], "lines": st[:60] + st[-3000:] if len(st) > 3060 else st}
+        idx = stateful_idx[:n] if n <= 3060 else stateful_idx[:60] + stateful_idx[n - 3000:n]
+        return {"case": lines[i], "lines": [lines[j] for j in idx]}
 
     fails = monitors(lines, impl) + (history_expectations(g, lines, impl) if g is not None else [])
     known = {f["key"] for f in ctx.load_findings() if f["property"] == ctx.pid}
     unknown_fails = [f for f in fails if f[0] not in known]
+    per_law = {}
     for law, i, detail in fails:
-        rp = prefix(i)
+        per_law[law] = per_law.get(law, 0) + 1
+        # full replays for the first failures of each law; the rest carry the failing line only
+        rp = prefix(i) if per_law[law] <= 25 else {"case": lines[i]}
         rp.update({"impl": impl[i], "law": law, "law_text": LAWS.get(law, ""), "detail": detail})
         ctx.violation("monitor", law, "law %s fails on the implementation: %s -> %s (%s)" % (law, lines[i][:200], impl[i][:200], detail), rp)
     mism = [(i, l, a.split(" |")[0].rstrip(), m) for i, (l, a, m) in enumerate(zip(lines, impl, model)) if a.split(" |")[0].rstrip() != m]
@@ -771,6 +1120,20 @@ def run(ctx):
         ctx.violation("corr", "correspondence-" + l.split()[0],
                       "model and implementation disagree on %d of %d lines, e.g. %s: impl=%s model=%s; no law failure found on %d neighbouring inputs"
                       % (len(mism), len(lines), l[:300], a, m, searched), rp)
+    # the file / link SQL of the real MySQL adapter (the histories above run on memverif)
+    sql_cov = {}
+    if not ctx.replay or sql_only:
+        sfails, sdiffs, sql_cov = sql_tie(ctx)
+        seen = {}
+        for law, detail, case in sfails:
+            seen[law] = seen.get(law, 0) + 1
+            if seen[law] <= 3:
+                ctx.violation("monitor", law, "law %s fails on the SQL of the real MySQL adapter (executed on sqlite): %s" % (law, detail),
+                              {"case": "SQL " + detail[:200], "sql_case": case, "law": law, "law_text": LAWS.get(law, ""), "failing_cases": seen[law]})
+        if sdiffs and not sfails:
+            key, detail, case = sdiffs[0]
+            ctx.violation("corr", "correspondence-" + key, "the SQL of the real MySQL adapter and the store contract of the model disagree in %d cases, e.g. %s" % (len(sdiffs), detail),
+                          {"case": "SQL " + detail[:200], "sql_case": case, "correspondence": key})
     kinds, outs = {}, {}
     nontrivial = set()
     for l, a in zip(lines, impl):
@@ -779,7 +1142,7 @@ def run(ctx):
         c = a.split(" |")[0].split()
         o = k + ":" + (" ".join(c[1:3]) if k in ("UP", "SV") else ("0" if c[1:] in (["0"], ["-"]) else "x") if k in ("ID", "FA") else "")
         outs[o] = outs.get(o, 0) + 1
-        if (k == "ID" and c[1] != "0") or (k in ("UP", "SV") and c[2] != "none") or k in ("PUB", "TAV", "UAV", "GC", "DELMSG", "DELTOPIC", "DELUSER") \
+        if (k == "ID" and c[1] != "0") or (k in ("UP", "SV") and c[2] != "none") or k in ("PUB", "TAV", "UAV", "NEWACC", "GC", "DELMSG", "DELTOPIC", "DELUSER", "INFLIGHT") \
                 or (k == "FA" and c[1] == "1") or (k == "CL" and c[1] != l.split()[1]):
             nontrivial.add(l)
     ctx.coverage.update({
@@ -787,16 +1150,19 @@ def run(ctx):
         "rule": "path.Clean on every string over {/,.,a} up to length %d plus seeded structured and junk URLs; GetIdFromUrl on the same URLs for several serve prefixes; "
                 "the disposition rule on a list of real and mutated content types through the real handler; the upload and download handlers on method x API-key placement/kind x "
                 "credential placement/kind (sampled in quick, complete in thorough), pairs of placements, the newacc exception and its neighbours, body sizes around the limit for "
-                "four limits, non-form / no-file / empty-file bodies, four media-handler configurations, three injected faults, 15 content kinds, every URL shape per fixture; "
+                "four limits, non-form / no-file / empty-file bodies, four media-handler configurations, three injected faults (create / StartUpload / FinishUpload), uploads stopped between StartUpload and FinishUpload and downloads of them by every URL shape, 15 content kinds, every URL shape per fixture; "
                 "%d seeded histories of uploads, publishes with attachment lists, topic and account avatar updates, hard message deletion, topic and user deletion and GC runs "
                 "(DeleteUnused with future / past / zero bound and limits), each followed by a dump of memverif's file and link tables and the directory listing; "
+                "the statements of the real MySQL adapter for GC / linking / FinishUpload executed on sqlite over enumerated tables of up to 3 uploads (old / new, 7 link sets each) x 6 (bound, limit) pairs; "
                 "non-trivial = an id was extracted / a request had an effect / a history operation ran" % (7 if quick else 11, 12 if quick else 400),
-        "samples": [{"case": lines[i][:300], "impl": impl[i][:300]} for i in ([1, 2, 3] + ctx.rng.sample(range(len(lines)), min(6, len(lines))))],
+        "samples": [{"case": lines[i][:300], "impl": impl[i][:300]} for i in ([i for i in (1, 2, 3) if i < len(lines)] + ctx.rng.sample(range(len(lines)), min(6, len(lines))))],
         "traces_validated_against_impl": len(lines), "correspondence_mismatches": len(mism),
         "monitor_failures": len(fails), "search_pool": searched,
         "input_distribution": {"by_request_kind": kinds, "by_outcome": dict(sorted(outs.items(), key=lambda kv: -kv[1])[:60])},
         "laws": LAWS,
+        "mysql_adapter_sql": sql_cov,
         "trusted_base": [
+            "harness/overlay/server/db/mysql/zz_verif_c16_test.go (recording database/sql driver: statement texts and arguments of the REAL MySQL adapter's FileDeleteUnused / FileLinkAttachments / FileFinishUpload) + python sqlite3 as the SQL engine standing in for MySQL for these statements, tables with the foreign keys of adapter.go:526-555 written by hand in tools/props/c16.py; the message / topic / user deletion statements (MySQL multi-table DELETE, ON DELETE CASCADE) are NOT executed",
             "harness/overlay/server/zz_verif_c16_test.go (builds the HTTP requests, observes memverif's tables and the upload directory before/after each request, calls the real handlers; a stub media handler overrides only Headers())",
             "harness/overlay/server/db/memverif (in-memory adapter with the MySQL adapter's file/link semantics: modelled from db/mysql/adapter.go:3171-3396, not verified)",
             "harness/runner/r_c16.ml glue: text of a placement kind -> constructor (valid key / good token / bad signature ...), upload k <-> model id",
